@@ -129,6 +129,7 @@ ExpectCopy(S, k) ==
 Expect(S, c) ==
     IF S.phase = "idle" THEN
         (IF Op(c) \in {"wopen", "topen"} THEN "ok"
+         ELSE IF Op(c) \in {"wopenbad", "topenbad", "copybad"} THEN "err"    \* the destination is in a directory that does not exist
          ELSE IF Op(c) = "ropen" THEN ExpectOpen(S, c[2])
          ELSE IF Op(c) = "copy" THEN ExpectCopy(S, c[2])
          ELSE "any")
@@ -200,7 +201,7 @@ ReaderCalls ==
   \cup { <<"rutc", i, 0>> : i \in Ids }
   \cup { <<"ri2t", i, 10>> : i \in {1, 2, 200, 65535} }
   \cup { <<"rt2i", i, 10>> : i \in {1, 2, 200, 65535} }
-IdleCalls == { <<"wopen">>, <<"topen">> } \cup { <<"ropen", k>> : k \in 0..5 } \cup { <<"copy", k>> : k \in 0..5 }
+IdleCalls == { <<"wopen">>, <<"topen">>, <<"wopenbad">>, <<"topenbad">>, <<"copybad", 0>> } \cup { <<"ropen", k>> : k \in 0..5 } \cup { <<"copy", k>> : k \in 0..5 }
 
 Calls(S) == IF S.phase = "idle" THEN IdleCalls
             ELSE IF S.phase = "w" THEN WriterCalls("w")
